@@ -750,3 +750,80 @@ def redeemscript_as_pushed(ctx):
         elif not raw_forms:
             ctx.unsure('parse_bytesio: provenance of `redeemscript = %s` not classified' % norm(v)[:60])
     ctx.floor(n, 1, 'assignments of the embedded redeem script')
+
+
+@PROP.obligation('C19.script-numbers', canaries=[
+    mut.replace_expr('scripts', 'Stack.op_checklocktimeverify', 'decode_num(self[-1])', "int.from_bytes(self[-1], 'little')", 'CLTV reads its operand as an unsigned integer'),
+    mut.replace_expr('scripts', 'Stack.op_if', 'decode_num(element) == 0', "int.from_bytes(element, 'little') == 0", 'IF reads its operand as an unsigned integer'),
+])
+def script_numbers(ctx):
+    """Numbers on the script stack are little-endian SIGN-MAGNITUDE (CScriptNum): 0x81 is -1, not 129. Every method of Stack that turns a
+    stack element (self[i], self.pop(), a local assigned from one, an element of pop_as_number's input) into an integer does so with
+    decode_num; int.from_bytes / int(...hex...) on a stack element reads negative operands as large positive ones - BIP65's "negative
+    lock time fails" can no longer fire and `-1 CLTV` passes with any nLockTime above 129."""
+    mod = ctx.repo.mod('scripts')
+    n = dec = 0
+    for name, fn in sorted(mod.functions.items()):
+        if not name.startswith('Stack.'):
+            continue
+        q = 'scripts:' + name
+        elems = set()
+        for a in ast.walk(fn):
+            if isinstance(a, ast.Assign) and len(a.targets) == 1:
+                v = a.value
+                is_elem = (isinstance(v, ast.Subscript) and norm(v.value) == 'self') or (isinstance(v, ast.Call) and norm(v.func) == 'self.pop')
+                if is_elem:
+                    for t in ast.walk(a.targets[0]):
+                        if isinstance(t, ast.Name):
+                            elems.add(t.id)
+            if isinstance(a, (ast.For, ast.comprehension)) and norm(a.iter).startswith('self'):
+                for t in ast.walk(a.target):
+                    if isinstance(t, ast.Name):
+                        elems.add(t.id)
+
+        def is_element(x):
+            return (isinstance(x, ast.Subscript) and norm(x.value) == 'self') or (isinstance(x, ast.Call) and norm(x.func) == 'self.pop') or (isinstance(x, ast.Name) and x.id in elems)
+        for c in ast.walk(fn):
+            if not isinstance(c, ast.Call):
+                continue
+            f = norm(c.func)
+            if f == 'decode_num' and c.args and is_element(c.args[0]):
+                dec += 1
+            if f in ('int.from_bytes', 'int') and c.args and is_element(c.args[0]):
+                n += 1
+                ctx.violate(q, 'a stack element is turned into a number with `%s` instead of decode_num' % norm(c)[:60], c,
+                            'the operand 0x81 (-1) is read as 129: OP_1NEGATE CHECKLOCKTIMEVERIFY, which consensus rejects, is reported valid')
+    ctx.saw('Stack methods: %d stack elements decoded with decode_num, %d with int.from_bytes / int' % (dec, n))
+    ctx.floor(dec, 3, 'decode_num applications to stack elements')
+
+
+@PROP.obligation('C19.fresh-stack', canaries=[
+    mut.replace_expr('scripts', 'Script.evaluate', 'Stack()', 'Stack(self.stack)', 'the stack of the previous evaluation is carried over'),
+    mut.drop_stmt('scripts', 'Script.evaluate', 'self.stack = Stack()', 'evaluate continues on the stack it finds'),
+])
+def fresh_stack(ctx):
+    """The verdict of evaluate() is a function of the script (and the message / environment data): it starts from an EMPTY stack. The
+    first statement of Script.evaluate that touches self.stack assigns a Stack constructed from nothing (Stack() or Stack([])), at the
+    top level of the method, before the command loop. A stack seeded with what the previous run left (an aborted script, a script
+    that leaves two elements) makes `1 DEPTH 2 EQUAL` true on the second call."""
+    q = 'scripts:Script.evaluate'
+    fn = ctx.repo.func(q)
+    first = None
+    for i, s_ in enumerate(fn.body):
+        if any(isinstance(x, ast.Attribute) and norm(x) == 'self.stack' for x in ast.walk(s_)):
+            first = s_
+            break
+    if first is None:
+        ctx.undecided('Script.evaluate never touches self.stack')
+    def fresh(v):
+        if isinstance(v, ast.Name):
+            defs = [a.value for a in ast.walk(fn) if isinstance(a, ast.Assign) and any(isinstance(t, ast.Name) and t.id == v.id for t in a.targets)]
+            return len(defs) == 1 and fresh(defs[0])
+        return isinstance(v, ast.Call) and norm(v.func) == 'Stack' and not v.keywords and \
+            (not v.args or (len(v.args) == 1 and isinstance(v.args[0], (ast.List, ast.Tuple)) and not v.args[0].elts))
+    ok = isinstance(first, ast.Assign) and any(norm(t) == 'self.stack' for t in first.targets) and fresh(first.value)
+    ctx.saw('first statement of evaluate that touches self.stack: `%s`' % norm(first)[:70])
+    ctx.require(ok, q, 'the first statement that touches self.stack is `%s`, not the assignment of an empty Stack()' % norm(first)[:70], first,
+                'a Script object evaluated twice gives two verdicts: `1 DEPTH 2 EQUAL`, which consensus rejects, is reported valid on the second call')
+    later = [a for a in ast.walk(fn) if isinstance(a, ast.Assign) and any(norm(t) == 'self.stack' for t in a.targets) and a is not first]
+    ctx.require(not later, q, 'self.stack is assigned again inside evaluate (`%s`)' % (norm(later[0])[:60] if later else ''), later[0] if later else fn)
